@@ -465,6 +465,78 @@ fn run_length_sweep(cx: &mut CaseCx, case: &Value) {
   cx.outcome("length sweep");
 }
 
+
+/// sharings whose message||coins bytes coincide at a different split must stay separate (adss level)
+fn run_boundary_shift(cx: &mut CaseCx, case: &Value) {
+  use adss::{Commune, Share};
+  let t = case["t"].as_u64().unwrap() as u32;
+  let k = case["k"].as_u64().unwrap() as usize;
+  let m1 = prbytes(0xB0, 16);
+  let r1 = prbytes(0xB1, 40);
+  let m2 = [&m1[..], &r1[..k]].concat();
+  let r2 = r1[k..].to_vec();
+  let mk = |m: &Vec<u8>, r: &Vec<u8>, n: usize| -> Vec<Share> { (0..n).filter_map(|_| guard(|| Commune::new(t, m.clone(), r.clone(), None).share().ok()).ok().flatten()).collect() };
+  let a = mk(&m1, &r1, t as usize - 1);
+  let b = mk(&m2, &r2, t as usize - 1);
+  if a.len() + b.len() != 2 * (t as usize - 1) {
+    return;
+  }
+  let pool: Vec<&Share> = a.iter().chain(b.iter()).collect();
+  for_each_seq(pool.len(), (t as usize + 1).min(5), |seq| {
+    if seq.is_empty() {
+      return;
+    }
+    let sh: Vec<Share> = seq.iter().map(|&i| pool[i].clone()).collect();
+    cx.eval();
+    cx.count("states", 1);
+    cx.count("transitions", 1);
+    cx.nontrivial(fnv_str(&format!("{}|{}|{:?}", t, k, seq)));
+    match guard(|| adss::recover(&sh).map(|c| c.get_message()).map_err(|e| e.to_string())) {
+      Ok(Err(_)) => cx.count("rejected", 1),
+      Ok(Ok(m)) => cx.viol("C02/ok-without-any-threshold", format!("t-1 shares of (M1, R1) and t-1 shares of (M1 || R1[..{}], R1[{}..]) - two different sharings whose message||coins bytes coincide - recover {} although neither reaches the threshold {}", k, k, if m == m1 { "M1" } else { "a message" }, t), json!({"t": t, "split_shift": k, "collection": seq})),
+      Err(p) => cx.viol("C02/recover-panicked", p, json!({"t": t})),
+    }
+  });
+  cx.outcome("boundary shift");
+}
+
+/// the dealer behind iterator adapters never deals the point 0 (which carries the secret in the clear)
+fn run_dealer_adapters(cx: &mut CaseCx, _case: &Value) {
+  use star_sharks::{Share, Sharks};
+  for t in [2u32, 3, 5] {
+    let secret = crate::refmodel::le24(&num_bigint::BigUint::from(0x5ec2e7u64)).to_vec();
+    let mk = || Sharks(t).dealer(&secret).ok();
+    let shapes: Vec<(&str, Box<dyn Fn() -> Option<Vec<Share>>>)> = vec![
+      ("nth(0) on a fresh dealer", Box::new(|| mk().map(|mut d| d.nth(0).into_iter().collect()))),
+      ("nth(1) on a fresh dealer", Box::new(|| mk().map(|mut d| d.nth(1).into_iter().collect()))),
+      ("skip(0).take(2)", Box::new(|| mk().map(|d| d.skip(0).take(2).collect()))),
+      ("step_by(1).take(2)", Box::new(|| mk().map(|d| d.step_by(1).take(2).collect()))),
+      ("next, then nth(0)", Box::new(|| mk().map(|mut d| { let a = d.next(); a.into_iter().chain(d.nth(0)).collect() }))),
+      ("take(1), then skip(1).take(1)", Box::new(|| mk().map(|mut d| { let a: Vec<Share> = d.by_ref().take(1).collect(); a.into_iter().chain(d.skip(1).take(1)).collect() }))),
+    ];
+    for (name, f) in shapes {
+      cx.eval();
+      cx.nontrivial(fnv_str(&format!("{}|{}", t, name)));
+      match guard(|| f()) {
+        Ok(Some(shares)) => {
+          let xs: Vec<num_bigint::BigUint> = shares.iter().map(|s| fp_to_big(&s.x)).collect();
+          for (i, sh) in shares.iter().enumerate() {
+            let enc = Vec::<u8>::from(sh);
+            if xs[i] == num_bigint::BigUint::from(0u32) || enc[24..] == secret[..] {
+              cx.viol("C02/share-carries-secret", format!("t={}: the dealer used through {} dealt the share (x = {}) whose value is the secret itself", t, name, xs[i]), json!({"t": t, "usage": name}));
+            }
+            if xs[..i].contains(&xs[i]) {
+              cx.viol("C02/dealer-repeats-point", format!("t={}: the dealer used through {} dealt x = {} twice", t, name, xs[i]), json!({"t": t, "usage": name}));
+            }
+          }
+          cx.count("adapter_usages", 1);
+        }
+        _ => {}
+      }
+    }
+  }
+}
+
 fn gen_mix(tier: Tier) -> Vec<Value> {
   let mut v = vec![];
   let ts: &[u64] = if tier.thorough() { &[2, 3, 4] } else { &[2, 3] };
@@ -545,6 +617,28 @@ pub fn spec() -> PropSpec {
         gen: |_| (2..=4u64).map(|t| json!({"t": t})).collect(),
         run: run_generator_reuse,
         min_counts: &[("rejected", 100)],
+      },
+      Check {
+        name: "boundary-shifted-sharings",
+        rule: "adss level: sharings (M1, R1) and (M1 || R1[..k], R1[k..]) for k in {1, 8, 16, 39} and t in {2,3}: t-1 shares of each, every sequence of length <= t+1 must fail (the message/coins boundary is part of the sharing)",
+        gen: |_| {
+          let mut v = vec![];
+          for t in [2u64, 3] {
+            for k in [1u64, 8, 16, 39] {
+              v.push(json!({"t": t, "k": k}));
+            }
+          }
+          v
+        },
+        run: run_boundary_shift,
+        min_counts: &[("rejected", 100)],
+      },
+      Check {
+        name: "dealer-adapters",
+        rule: "sharks level: the dealer used through nth / skip / step_by / take on fresh and advanced dealers (t in {2,3,5}): never the point x = 0 (the share would be the secret), never the same point twice",
+        gen: |_| vec![json!({})],
+        run: run_dealer_adapters,
+        min_counts: &[("adapter_usages", 12)],
       },
       Check {
         name: "payload-length-sweep",
